@@ -117,6 +117,9 @@ class OrderedTags(set):
 
 class C17(Check):
     pid = "C17"
+    level_text = (
+        "Exhaustive over the enumerated configurations and histories: all tag-set iteration orders, hash-seed sweeps over whole remap sub-scopes in fresh interpreters, CLI matrix seed x cwd x cache state, all orders of consecutive in-process invocations, three input formats."
+    )
     technique = (
         "exhaustive enumeration of configurations and histories on the real code: all tag-set iteration orders; hash-seed sweeps in fresh "
         "interpreters over remap sub-scopes; CLI matrix seed x cwd x cache state; all orders of consecutive in-process invocations; three input formats"
